@@ -52,6 +52,8 @@ def defect_frame(fam, rng, tz, defect):
     days = 365
     if defect == "too_short":
         days = int(rng.integers(200, 320))
+    if defect.startswith("very_short"):
+        days = int(defect.split(":")[1])
     if defect == "too_long":
         days = int(rng.integers(380, 420))
     df = fam.baseline_frame(rng, tz=tz, days=days, noise=0.08)
@@ -87,6 +89,16 @@ def outcome_of(fn):
         return type(e).__name__, None, e
 
 
+def raising_site(exc):
+    """innermost function of the repository on the traceback (deterministic tag for the mechanism)"""
+    import traceback
+    site = "?"
+    for fr in traceback.extract_tb(exc.__traceback__):
+        if "/opendsm/" in fr.filename.replace("\\", "/"):
+            site = fr.name
+    return site
+
+
 def run_case(spec):
     import opendsm.eemeter as em
     from opendsm.eemeter.common.exceptions import DataSufficiencyError, DisqualifiedModelError
@@ -118,6 +130,9 @@ def run_case(spec):
             if out != "returned":
                 kind = "overridden" if data_dq else "qualified"
                 prof = "" if fam.profile in ("current", "legacy", "default") else ":developer-profile-%s" % fam.profile
+                if defect.startswith("very_short"):
+                    prof += ":%s:baseline-of-a-few-days" % raising_site(exc)
+                    I.reach("gate.very_short_baseline_fit_raised")
                 add("fit-did-not-return-a-model:%s:%s:%s%s" % (fam.kind, kind, out, prof), "fit on %s data (override %s) raised %s: %s" % (kind, ign, out, str(exc)[:200]), ignore=ign, **tag)
             else:
                 if data_dq:
@@ -222,13 +237,14 @@ def run_case(spec):
 def gen_cases(tier, seed):
     q = tier == "quick"
     fams = ["daily:current", "daily:legacy", "billing", "hourly:default"]
-    defects = ["none", "too_short", "poor_fit", "day_gaps", "month_gap", "temp_run", "combination", "too_long"]
+    defects = ["none", "too_short", "poor_fit", "day_gaps", "month_gap", "temp_run", "combination", "too_long", "very_short:3", "very_short:10", "very_short:30", "very_short:60"]
     zones = ["America/Chicago", "Europe/London", "UTC", "Asia/Kolkata"]
     cases = []
     k = 0
     combos = [(f, d) for d in defects for f in fams]
     if q:
-        combos = [(f, d) for (f, d) in combos if d in ("none", "too_short", "poor_fit")] + [("hourly:default", "poor_fit_undefined_metric"), ("daily:current", "day_gaps"), ("hourly:default", "month_gap"),
+        combos = [(f, d) for (f, d) in combos if d in ("none", "too_short", "poor_fit")] + [("hourly:default", "poor_fit_undefined_metric"), ("daily:current", "very_short:3"), ("daily:legacy", "very_short:10"), ("hourly:default", "very_short:30"), ("billing", "very_short:3"), ("daily:current", "very_short:10"),
+                                                                                          ("daily:current", "day_gaps"), ("hourly:default", "month_gap"),
                                                                                           ("daily:current", "month_gap"), ("billing", "month_gap"), ("daily:legacy", "temp_run")]
     else:
         combos = combos * 3 + [("hourly:default", "poor_fit_undefined_metric"), ("hourly:robust", "poor_fit_undefined_metric"), ("hourly:default:ghi", "poor_fit_undefined_metric")]
